@@ -17,15 +17,16 @@ def canon(v):
     """Canonical JSON-able form of anything curies returns."""
     if v is None or isinstance(v, (str, int, float, bool)):
         return v
-    if hasattr(v, "model_dump"):
-        return {"__model__": type(v).__name__, **canon(v.model_dump())}
-    if isinstance(v, tuple):
-        return [canon(x) for x in v]
-    if isinstance(v, list):
+    # containers first: a tuple stays a tuple whatever convenience methods its class grows
+    if isinstance(v, (tuple, list)):
         return [canon(x) for x in v]
     if isinstance(v, (set, frozenset)):
         return sorted((canon(x) for x in v), key=lambda x: json.dumps(x, sort_keys=True))
-    if isinstance(v, dict) or hasattr(v, "items"):
+    if isinstance(v, dict):
+        return {str(k): canon(x) for k, x in v.items()}
+    if hasattr(v, "model_dump"):
+        return {"__model__": type(v).__name__, **canon(v.model_dump())}
+    if hasattr(v, "items"):
         return {str(k): canon(x) for k, x in v.items()}
     return repr(v)
 
@@ -35,6 +36,15 @@ def call(f, *a, **k):
         return ["ok", canon(f(*a, **k))]
     except Exception as e:  # noqa: BLE001 - the type is the observation
         return ["exc", type(e).__name__]
+
+
+def callm(obj, name, *a, **k):
+    """``call`` of a method looked up by name; a method the object does not have is an observation
+    (``ABSENT``), not a crash of the harness."""
+    f = getattr(obj, name, None)
+    if f is None:
+        return ABSENT
+    return call(f, *a, **k)
 
 
 def record_dump(r):
@@ -100,44 +110,43 @@ def answers(conv, strings, pairs, full=True):
         d = {}
         if not full:
             # lite: every primitive in default mode, strict mode for the two conversions
-            d["compress"] = [call(conv.compress, s), call(conv.compress, s, strict=True)]
-            d["expand"] = [call(conv.expand, s), call(conv.expand, s, strict=True)]
+            d["compress"] = [callm(conv, "compress", s), callm(conv, "compress", s, strict=True)]
+            d["expand"] = [callm(conv, "expand", s), callm(conv, "expand", s, strict=True)]
             for name in ("compress_or_standardize", "expand_or_standardize", "standardize_prefix",
                          "standardize_curie", "standardize_uri", "parse_curie", "expand_all",
                          "get_record", "is_uri", "is_curie"):
-                d[name] = call(getattr(conv, name), s)
-            d["parse_uri"] = call(conv.parse_uri, s, return_none=True)
-            d["parse"] = call(conv.parse, s, strict=False)
+                d[name] = callm(conv, name, s)
+            d["parse_uri"] = callm(conv, "parse_uri", s, return_none=True)
+            d["parse"] = callm(conv, "parse", s, strict=False)
             out[s] = d
             continue
         for name in (
             "compress", "expand", "compress_or_standardize", "expand_or_standardize",
             "standardize_prefix", "standardize_curie", "standardize_uri",
         ):
-            f = getattr(conv, name)
-            d[name] = [call(f, s, strict=st, passthrough=pt) for st, pt in modes]
-        d["parse_uri"] = [call(conv.parse_uri, s, strict=st, return_none=True) for st in (False, True)]
-        d["parse_curie"] = [call(conv.parse_curie, s, strict=st) for st in (False, True)]
-        d["parse"] = [call(conv.parse, s, strict=st) for st in (False, True)]
-        d["expand_all"] = [call(conv.expand_all, s, strict=st) for st in (False, True)]
-        d["is_uri"] = call(conv.is_uri, s)
-        d["is_curie"] = call(conv.is_curie, s)
-        d["get_record"] = [call(conv.get_record, s, strict=st) for st in (False, True)]
+            d[name] = [callm(conv, name, s, strict=st, passthrough=pt) for st, pt in modes]
+        d["parse_uri"] = [callm(conv, "parse_uri", s, strict=st, return_none=True) for st in (False, True)]
+        d["parse_curie"] = [callm(conv, "parse_curie", s, strict=st) for st in (False, True)]
+        d["parse"] = [callm(conv, "parse", s, strict=st) for st in (False, True)]
+        d["expand_all"] = [callm(conv, "expand_all", s, strict=st) for st in (False, True)]
+        d["is_uri"] = callm(conv, "is_uri", s)
+        d["is_curie"] = callm(conv, "is_curie", s)
+        d["get_record"] = [callm(conv, "get_record", s, strict=st) for st in (False, True)]
         if full and n % 3 == 0:
-            d["compress_strict"] = call(conv.compress_strict, s)
-            d["expand_strict"] = call(conv.expand_strict, s)
+            d["compress_strict"] = callm(conv, "compress_strict", s)
+            d["expand_strict"] = callm(conv, "expand_strict", s)
         out[s] = d
     pout = {}
     modes = MODES if full else MODES[:2]
     for p, i in pairs:
         d = {
-            "expand_pair": [call(conv.expand_pair, p, i, strict=st, passthrough=pt) for st, pt in modes],
-            "expand_pair_all": [call(conv.expand_pair_all, p, i, strict=st) for st in (False, True)],
+            "expand_pair": [callm(conv, "expand_pair", p, i, strict=st, passthrough=pt) for st, pt in modes],
+            "expand_pair_all": [callm(conv, "expand_pair_all", p, i, strict=st) for st in (False, True)],
             "expand_reference": [
-                call(conv.expand_reference, ReferenceTuple(p, i), strict=st, passthrough=pt)
+                callm(conv, "expand_reference", ReferenceTuple(p, i), strict=st, passthrough=pt)
                 for st, pt in modes
             ],
-            "format_curie": call(conv.format_curie, p, i),
+            "format_curie": callm(conv, "format_curie", p, i),
         }
         pout[json.dumps([p, i], ensure_ascii=True)] = d
     return {"strings": out, "pairs": pout}
